@@ -12,7 +12,7 @@ src = json.load(open(os.path.join(V, "tools", "manifest_src.json")))
 for f in sorted(os.listdir(os.path.join(V, "tools", "checks"))):
     if f.startswith("c") and f.endswith(".py"):
         cfg = importlib.import_module("checks." + f[:-3])
-        if getattr(cfg, "CLAIM", False):
+        if getattr(cfg, "CLAIM", False) and cfg.PID in src.get("integrated", []):
             src["claimed"][cfg.PID] = {"text": cfg.MANIFEST_TEXT, "note": cfg.MANIFEST_NOTE, "technique": cfg.TECHNIQUE}
         elif hasattr(cfg, "NOT_CLAIMED_REASON"):
             src["not_claimed"][cfg.PID] = cfg.NOT_CLAIMED_REASON
